@@ -613,3 +613,7 @@ package parse
 //@   loop 0 invariant revsOK(n, loopidx+1) && forall(i, 0, loopidx+1, implies(isRev(n, i), date_key(revFull(n, i)) >= tkey(rev)))
 //@   loop 0 invariant (tkey(rev) == date_key("9999-12-31T23:59:59Z") && forall(i, 0, loopidx+1, !isRev(n, i))) || exists(i, 0, loopidx+1, isRev(n, i) && date_key(revFull(n, i)) == tkey(rev) && rev == smt("S$time.Time", "(time_of %s)", tkey(rev)))
 //@ func (Node).String
+//@ func (HasArgument).ArgSchema
+//@   nopanic
+//@ func (Namespace).GetNodeModulename
+//@   params mod
